@@ -1,5 +1,3 @@
-//go:build verif_c15
-
 package harness
 
 // C15 — shipped executables, manifests and RPC bindings correspond to the
